@@ -322,6 +322,17 @@ def c13():
                 bs.append({"id": len(bs) + 1, "cfg": ["wa", "exp"][len(bs) % 2], "conc": len(bs) % 3, "cache": ["none", "default"][(i + ri) % 2], "labels": ["a", "b"],
                            "values": ["x", "y"], "kinds": ["epoch_hash", "lookup"], "prefix": prefix, "procs": procs, "sched_points": True,
                            "schedule": [1] * i + [3] * j + [1] + [3] * 200 + [1] * 200})
+    # a remote cached instance with its real change poller: a request's database answer is held back (completion gate),
+    # the writer publishes, the poller flushes the instance's cache and reloads the epoch record, the held-back answer
+    # arrives, and a later request on that instance must still be answered consistently (cache fill across a flush)
+    for rk in (readers[4], readers[0]):
+        for rk2 in (readers[4], readers[0], readers[1]):
+            for i in (range(1, 7) if chk.tier == "quick" else range(1, 14)):
+                procs = [{"pid": 1, "kind": "publish", "batch": [["a", "x"]]}, dict(rk, pid=3, remote=True), {"pid": 5, "kind": "poll", "remote": True},
+                         dict(rk2, pid=4, remote=True)]
+                bs.append({"id": len(bs) + 1, "cfg": ["wa", "exp"][len(bs) % 2], "conc": len(bs) % 3, "cache": "none", "labels": ["a", "b"], "values": ["x", "y"],
+                           "kinds": ["epoch_hash"], "prefix": prefix, "procs": procs, "post": True, "shared_remote": True,
+                           "schedule": [3] * i + [1] * 200 + [5] * 60 + [3] * 200 + [4] * 200})
     ctraces = run_conc_harness(chk, bs)
     results = validate_traces("TraceDirectory", "TraceDirectory.cfg", ltraces + ctraces, chk.wd)
     chk.handle_validation(results)
